@@ -538,3 +538,39 @@ package semver
 //@   requires len(a.ext.(*gemExtension).elems) > 0 && len(b.ext.(*gemExtension).elems) == 0
 //@   ensures compare(a, b) < 0
 //@   property C02
+
+// The order laws of compare on versions without an extension (the SemVer
+// family, which is C09's domain), stated with triggers for use where compare
+// is referenced by symbol. They are proved here from compare's summary.
+//@ lemma compare.plain.laws
+//@   vars a, b *Version
+//@   unfold compare
+//@   requires plain(a) && plain(b) && sameSys(a, b)
+//@   ensures -1 <= compare(a, b) && compare(a, b) <= 1 && compare(a, b) == -compare(b, a)
+//@   pattern compare(a, b)
+//@   property C09
+//@   export
+
+//@ lemma compare.plain.trans
+//@   vars a, b, c *Version
+//@   unfold compare
+//@   requires plain(a) && plain(b) && plain(c) && sameSys(a, b) && sameSys(b, c)
+//@   ensures imp(compare(a, b) <= 0 && compare(b, c) <= 0, compare(a, c) <= 0)
+//@   ensures imp(compare(a, b) <= 0 && compare(b, c) < 0, compare(a, c) < 0)
+//@   ensures imp(compare(a, b) < 0 && compare(b, c) <= 0, compare(a, c) < 0)
+//@   pattern compare(a, b); compare(b, c)
+//@   property C09
+//@   export
+
+// Set.Intersect, at the point where the bounds of the overlap have been
+// chosen: an arbitrary version v of the same system lies in both spans (under
+// interval matching) exactly when it lies between the chosen bounds.
+//@ pred okSpan(sp span) = sp.min != nil && sp.max != nil && plain(sp.min) && plain(sp.max) && sameSys(sp.min, sp.max) &&
+//@      imp(sp.rank == unit, sp.min == sp.max && !sp.minOpen && !sp.maxOpen) && (sp.rank == unit || sp.rank == vector)
+//@ pred between(lo *Version, loOpen bool, hi *Version, hiOpen bool, v *Version) =
+//@      (compare(v, lo) > 0 || (compare(v, lo) == 0 && !loOpen)) && (compare(hi, v) > 0 || (compare(hi, v) == 0 && !hiOpen))
+//@ func (*Set).Intersect
+//@   requires s != nil
+//@   assert at "span, err := newSpan(min, minOpen, max, maxOpen)": imp(okSpan(selem) && okSpan(telem) && sameSys(selem.min, telem.min) && plain(arb(v, "*Version")) && sameSys(arb(v, "*Version"), selem.min),
+//@          iff(selem.contains(arb(v, "*Version"), true) && telem.contains(arb(v, "*Version"), true), between(min, minOpen, max, maxOpen, arb(v, "*Version"))))
+//@   property C09
